@@ -9,11 +9,16 @@ PROPERTY = 'C11'
 OPS = ['connect /', 'connect /a', 'connect refused', 'enter room', 'event', 'event+ack', 'binary header only',
        'binary header + 1 of 2', 'emit with callback (unanswered)', 'emit with callback (answered)', 'malformed',
        'client DISCONNECT', 'server disconnect', 'server disconnect, transport lost during the handler', 'leave own room',
-       'broadcast with callback, transport lost during the sends']
+       'emit to a room with callback, transport lost during the sends']
 
 
 class Boom(RuntimeError):
     pass
+
+
+class Interrupt(BaseException):
+    """what ends a worker from outside while it is inside the application's handler (KeyboardInterrupt, SystemExit,
+    gevent's Timeout / GreenletExit): not an Exception"""
 
 
 def residue(w, e, sids):
@@ -54,6 +59,8 @@ def h_inner(t, part):
     def maybe_raise(kind):
         if not inv['armed']:
             return
+        if part.get('fault') == 'interrupt' and kind != 'disconnect':
+            return          # (threaded: the interruption is placed in a disconnect handler of a namespace-level termination)
         k = inv['n']
         inv['n'] += 1
         if fault_at == k:
@@ -61,6 +68,8 @@ def h_inner(t, part):
             if part.get('fault') == 'cancelled':
                 import asyncio as real_asyncio
                 raise real_asyncio.CancelledError()
+            if part.get('fault') == 'interrupt':
+                raise Interrupt(kind)
             raise Boom(kind)
 
     meanwhile = {'lose': False}
@@ -162,34 +171,42 @@ def h_inner(t, part):
                 ev = [p for p in w.take('e0') if not isinstance(p, tuple) and p.packet_type == packet.EVENT]
                 if ev:
                     w.send('e0', w.P(packet.ACK, data=[1], namespace=cur, id=ev[0].id))
-        elif op == 'broadcast with callback, transport lost during the sends':
+        elif op == 'emit to a room with callback, transport lost during the sends':
+            if part.get('manager') == 'pubsub':
+                continue        # (the queue managers key such a callback by the room and keep it: multi-recipient callbacks are documented as unsupported there)
             if cur == '/' and w.s.manager.is_connected(live[cur], cur):
                 # the bystander is the first recipient; while the send to it is suspended the transport of the second
                 # recipient ends and is wound up completely (asyncio; on the threaded server sends do not suspend)
+                w.call(w.s.enter_room(live[cur], 'lobby', namespace='/'))       # (the bystander's room: it joined first)
                 if asyncio_:
                     async def both():
-                        tk = miniloop.create_task(w.s.emit('q', 1, namespace='/', callback=lambda *a: None), 'emit')
+                        tk = miniloop.create_task(w.s.emit('q', 1, to='lobby', namespace='/', callback=lambda *a: None), 'emit')
                         await miniloop.sleep(0)
                         await w.eio.lose('e0')
                         await tk
                     w.call(both())
                 else:
-                    w.call(w.s.emit('q', 1, namespace='/', callback=lambda *a: None))
+                    w.call(w.s.emit('q', 1, to='lobby', namespace='/', callback=lambda *a: None))
                 break
         elif op == 'malformed':
             w.recv('e0', ['x', '9', '2/a', '51-["ev"'][step % 4])
         elif op == 'client DISCONNECT':
-            w.send('e0', w.P(packet.DISCONNECT, namespace=cur))
+            try:
+                w.send('e0', w.P(packet.DISCONNECT, namespace=cur))
+            except Interrupt:
+                pass        # (ends the thread that engine.io runs the message on)
             live[cur] = None
         elif op in ('server disconnect', 'server disconnect, transport lost during the handler'):
-            meanwhile['lose'] = op != 'server disconnect' and not part.get('legacy')
+            meanwhile['lose'] = op != 'server disconnect' and not part.get('legacy') and part.get('fault') != 'interrupt'
             try:
                 w.call(w.s.disconnect(live[cur], namespace=cur))
-            except Boom:
+            except (Boom, Interrupt):
                 pass        # the application's own handler raised into the application's call
             meanwhile['lose'] = False
             live[cur] = None
     # the transport ends
+    if part.get('fault') == 'interrupt':
+        inv['armed'] = False        # (the interruption is not placed in the processing of the loss itself)
     w.lose('e0')
     w.finish()
     late = part.get('late')
@@ -255,6 +272,9 @@ def parts(tier):
     # asyncio: the handler coroutine ends in CancelledError (a BaseException); handlers with the legacy signature
     out += [{'async': True, 'always_connect': False, 'n': n - 1, 'first': f, 'fault': 'cancelled', 'legacy': lg}
             for lg in (False, True) for f in range(len(OPS))]
+    # threaded: the worker is interrupted (a BaseException that is not an Exception) inside the disconnect handler of a
+    # client DISCONNECT or of server.disconnect(); the transport ends afterwards
+    out += [{'async': False, 'always_connect': False, 'n': n, 'first': f, 'fault': 'interrupt'} for f in (0, 1)]
     return out
 
 
@@ -266,7 +286,7 @@ META = dict(
                 'server/manager container is inspected for the transport id and all session ids it ever had, and '
                 'after the bystander leaves the whole state must equal that of the freshly built server.',
     bounds={'quick': '3 operations from %r (the last one: the loss is processed entirely while the disconnect handler of a server-initiated disconnect is suspended) on one transport (namespaces /, /a, refusing /r) + transport loss; at most '
-                     'one raising handler invocation among the first 4 (symbolic index); always_connect in {F,T}; asyncio also with handlers ending in CancelledError and legacy one-argument disconnect handlers (2 operations); a '
+                     'one raising handler invocation among the first 4 (symbolic index); always_connect in {F,T}; asyncio also with handlers ending in CancelledError and legacy one-argument disconnect handlers (2 operations); threaded also with the worker interrupted by a BaseException inside the disconnect handler of a namespace-level termination; a '
                      'bystander in a room on /' % (OPS,),
             'thorough': 'same with 4 operations'},
     outside=['heap-size measurement (the memory clause is claimed as state equality with a fresh server)',
